@@ -13,7 +13,7 @@
 (*     W_Lock  write_mutex.lock()         :198                              *)
 (*     W_Ptr   data.load                  :205                              *)
 (*     W_Alloc Box::new(val)              :75                               *)
-(*     W_Swap  data.swap(new)             :81                               *)
+(*     W_Swap  data.swap(new)             :81   (variant Publish = "store") *)
 (*     W_Seen  update_seen, first round   :170 (both slots)                 *)
 (*     W_Flip  generation.fetch_add(1)    :173                              *)
 (*     W_Hint  spin_loop_hint / yield_now :181-187                          *)
@@ -39,6 +39,8 @@ CONSTANTS Readers, Writers,      \* disjoint sets of thread ids (integers)
           ReadOrder,             \* "count_then_ptr" (the code) | "ptr_then_count"
           Barrier,               \* "both" (the code) | "only_current" | "none"
           Sticky,                \* TRUE (the code): a slot once seen zero stays seen
+          Publish,               \* "swap" (the code: data.swap(new)) | "store" (data.store(new),
+                                 \* the old pointer taken from the writer's earlier load)
           OrdRGen, OrdRInc, OrdRPtr, OrdRDec, OrdWPtr, OrdWSwap, OrdWSeen, OrdWFlip
 
 Threads == Readers \cup Writers
@@ -173,7 +175,7 @@ W_Ptr(t) ==
     /\ f.pc = "w_ptr"
     /\ \E ts \in M!ReadTs(t, DATA, OrdWPtr) :
          /\ M!MRead(t, DATA, OrdWPtr, ts)
-         /\ SetTop(t, [f EXCEPT !.pc = "w_alloc"])
+         /\ SetTop(t, [f EXCEPT !.ptr = M!ValAt(DATA, ts), !.pc = "w_alloc"])
     /\ UNCHANGED <<todo, box, nboxes, ndeliv, bad>>
 
 W_Alloc(t) ==
@@ -189,8 +191,9 @@ W_Alloc(t) ==
 W_Swap(t) ==
     LET f == Top(t) IN
     /\ f.pc = "w_swap"
-    /\ M!MRmw(t, DATA, OrdWSwap, f.new)
-    /\ SetTop(t, [f EXCEPT !.old = M!Latest(DATA),
+    /\ IF Publish = "swap" THEN M!MRmw(t, DATA, OrdWSwap, f.new)
+                           ELSE M!MStore(t, DATA, OrdWSwap, f.new)
+    /\ SetTop(t, [f EXCEPT !.old = IF Publish = "swap" THEN M!Latest(DATA) ELSE f.ptr,
                            !.seen = IF Barrier = "only_current"
                                     THEN <<FALSE, FALSE>> ELSE <<FALSE, FALSE>>,
                            !.pc = IF Barrier = "none" THEN "w_free" ELSE "w_seen0"])
